@@ -76,23 +76,21 @@ class Ctx:
         self.samples = []
         self.extra = {}
         self.caps = []
+        self.slowest = (0.0, None)
 
 
 _MOD = None
 
 
-def _run_chunk(items):
-    out = []
-    for desc in items:
-        t0 = time.time()
-        try:
-            r = _MOD.run_state(desc)
-        except Exception as e:  # a harness bug must not masquerade as a pass
-            import traceback
-            raise RuntimeError("run_state failed on %r:\n%s" % (desc, traceback.format_exc())) from e
-        r["_t"] = time.time() - t0
-        out.append(r)
-    return out
+def _run_one(desc):
+    t0 = time.time()
+    try:
+        r = _MOD.run_state(desc)
+    except Exception as e:  # a harness bug must not masquerade as a pass
+        import traceback
+        raise RuntimeError("run_state failed on %r:\n%s" % (desc, traceback.format_exc())) from e
+    r["_t"] = time.time() - t0
+    return r
 
 
 def load(prop):
@@ -113,8 +111,8 @@ def write_replay(pid, desc, v):
 def _confirm(mod, desc, v):
     """Replay-twice rule: re-run the state in a fresh forked worker."""
     got = []
-    ab = pool.run_chunks(_run_chunk, [[desc]], nproc=1, timeout=getattr(mod, "STATE_TIMEOUT", 120.0),
-                         on_result=lambda items, res: got.extend(res))
+    ab = pool.run_chunks(_run_one, [[desc]], nproc=1, timeout=getattr(mod, "STATE_TIMEOUT", 60.0),
+                         on_result=lambda item, res: got.append(res))
     if ab:
         return v.get("kind") in ("crash", "hang")
     for r in got:
@@ -147,19 +145,20 @@ def run_check(prop, tier=None, seed=None, only=None):
     chunks = pool.chunked(states, chunk)
     step = max(1, len(states) // 8)
 
-    def on_result(items, res):
-        for desc, r in zip(items, res):
-            ctx.n_eval += r.get("n_eval", 1)
-            ctx.n_trans += r.get("n_trans", r.get("n_eval", 1))
-            ctx.n_traces += r.get("traces", r.get("n_eval", 1))
-            for k in r.get("nontrivial", ()):
-                ctx.nontrivial.add(k if isinstance(k, str) else dumps(k))
-            for name, h in r.get("hist", {}).items():
-                ctx.hist[name].update(h)
-            for v in r.get("viol", ()):
-                ctx.viol.append((desc, v))
-            if len(ctx.samples) < 6 and r.get("sample") is not None:
-                ctx.samples.append(r["sample"])
+    def on_result(desc, r):
+        ctx.n_eval += r.get("n_eval", 1)
+        ctx.n_trans += r.get("n_trans", r.get("n_eval", 1))
+        ctx.n_traces += r.get("traces", r.get("n_eval", 1))
+        for k in r.get("nontrivial", ()):
+            ctx.nontrivial.add(k if isinstance(k, str) else dumps(k))
+        for name, h in r.get("hist", {}).items():
+            ctx.hist[name].update(h)
+        for v in r.get("viol", ()):
+            ctx.viol.append((desc, v))
+        if len(ctx.samples) < 6 and r.get("sample") is not None:
+            ctx.samples.append(r["sample"])
+        if r["_t"] > ctx.slowest[0]:
+            ctx.slowest = (r["_t"], desc)
 
     quiet = os.environ.get("VERIF_QUIET")
 
@@ -168,10 +167,9 @@ def run_check(prop, tier=None, seed=None, only=None):
             print("  [%s] %d/%d chunks, %.0fs, viol=%d" % (pid, n, tot, time.time() - t_start, len(ctx.viol)),
                   file=sys.stderr, flush=True)
 
-    abnormal = pool.run_chunks(_run_chunk, chunks, timeout=getattr(mod, "CHUNK_TIMEOUT", 300.0),
+    abnormal = pool.run_chunks(_run_one, chunks, timeout=getattr(mod, "STATE_TIMEOUT", 60.0),
                                on_result=on_result, progress=progress)
-    for items, status, payload in abnormal:
-        desc = items[0]
+    for desc, status, payload in abnormal:
         ctx.viol.append((desc, {"kind": status, "entry": "process", "sig": "%s:%s" % (status, _hash(desc)),
                                 "detail": payload}))
     if hasattr(mod, "finalize"):
@@ -235,6 +233,7 @@ def run_check(prop, tier=None, seed=None, only=None):
         "new_violation_signatures": len(by_sig),
         "unreproducible": [v.get("sig") for _, v in unrepro],
         "mode": mode,
+        "slowest_state_s": round(ctx.slowest[0], 3),
         "technique": getattr(mod, "TECHNIQUE", ""),
     }
     cov.update(ctx.extra)
